@@ -176,6 +176,18 @@ func (c *FnCtx) doCall(frame *Frame, st *State, in ssa.Instruction, call *ssa.Ca
 			}
 		}
 	}
+	// file-system frame of the function under verification
+	if c.contract != nil && c.contract.HasFSEffects && fsMutators[key] {
+		listed := false
+		for _, a := range c.contract.FSEffects {
+			if a == key {
+				listed = true
+			}
+		}
+		if !listed {
+			c.addOblig(st, "fs_effects:"+key, "frame", "false", "the function's file-system frame (fs_effects "+strings.Join(c.contract.FSEffects, ", ")+") does not allow a call of "+key, in.Pos())
+		}
+	}
 	// call-site rules of the function under verification
 	if !frame.inlined && frame.contract != nil && len(frame.contract.Asserts) > 0 && key != "" {
 		c.checkCallSiteAsserts(frame, st, in, key)
@@ -578,7 +590,17 @@ func (c *FnCtx) havocModItem(st *State, env *SpecEnv, m ModItem, preHeap map[str
 		}
 		c.note("modifies * : whole heap havoc (except the caller's stack variables)")
 	case "field":
-		obj, err := c.eval(env, m.Expr)
+		// x.f, or x.g.f where g is a struct-valued field of the object x points to
+		base, inner := m.Expr, ""
+		obj, err := c.eval(env, base)
+		for err == nil && base.Op == "sel" {
+			if _, isPtr := fieldOwner(obj); isPtr {
+				break
+			}
+			inner = joinPath(base.Name, inner)
+			base = base.Args[0]
+			obj, err = c.eval(env, base)
+		}
 		if err != nil {
 			c.errs = append(c.errs, "modifies: "+err.Error())
 			return
@@ -589,12 +611,30 @@ func (c *FnCtx) havocModItem(st *State, env *SpecEnv, m ModItem, preHeap map[str
 			return
 		}
 		key := typeName(owner)
-		ft, ghost := c.fieldType(owner, m.Name)
+		var ft types.Type
+		ghost := false
+		if inner == "" {
+			ft, ghost = c.fieldType(owner, m.Name)
+		} else {
+			// walk the struct-valued fields
+			var cur types.Type = owner
+			for _, comp := range strings.Split(inner, ".") {
+				t, _ := c.fieldType(cur, comp)
+				if t == nil {
+					cur = nil
+					break
+				}
+				cur = t
+			}
+			if cur != nil {
+				ft, _ = c.fieldType(cur, m.Name)
+			}
+		}
 		if ft == nil {
 			c.errs = append(c.errs, "modifies: no field "+m.Name)
 			return
 		}
-		path := m.Name
+		path := joinPath(inner, m.Name)
 		if ghost {
 			path = "$" + m.Name
 		}
